@@ -6,7 +6,7 @@ import pktgen, scen
 class Prop(PropBase):
     pid = 'C05'
     kernels = ['parseTimeUTCWithUs', 'createTimeUTCWithUs']
-    vo_targets = ['Props/Properties_C05.vo', 'Proofs/TimeCodec.vo', 'Proofs/Timestamps.vo', 'Proofs/Eq_Time.vo']
+    vo_targets = ['Props/Properties_C05.vo', 'Proofs/TimeCodec.vo', 'Proofs/Timestamps.vo', 'Proofs/Eq_Time.vo', 'Proofs/Timestamps2.vo']
     prop_files = ['Props/Properties_C05.v']
     rule = ('codec kernels: parse/create of UTC (6+4 byte) and calendar (YMD, fixed-offset zones) header times at epoch/rollover/sub-second boundaries against the real '
             'functions (glibc mktime/localtime under TZ=<fixed offset>); driver: all 17 types, lidar clock and host clock, FOV gaps (> 1 deg jumps incl. across 0 deg), '
